@@ -1,6 +1,6 @@
 (* C19 / C18: info, info -sf and flatten over the loaded history. *)
 From Coq Require Import Lia Permutation.
-From MHL Require Import Model.Commands Gen.Generated Proofs.BaseFacts Proofs.SealFacts Proofs.RouteFacts.
+From MHL Require Import Model.Commands Gen.Generated Proofs.BaseFacts Proofs.SealFacts Proofs.RouteFacts Proofs.TreeFacts.
 
 Section Info.
   Variable C : Type.
@@ -102,3 +102,195 @@ Section Flatten.
     - repeat split; constructor.
   Qed.
 End Flatten.
+
+(* ---- flatten: one digest per format, provenance, completeness ---- *)
+Section Flatten2.
+  Lemma find_last_some {A} (f : A -> bool) : forall l x, find_last f l = Some x -> In x l /\ f x = true.
+  Proof.
+    induction l as [|a l IH]; intros x H; [discriminate|]. cbn in H. destruct (find_last f l) as [y|] eqn:E.
+    - injection H as <-. destruct (IH y eq_refl). split; [right|]; assumption.
+    - destruct (f a) eqn:Ea; [injection H as <-; split; [left; reflexivity|exact Ea]|discriminate].
+  Qed.
+  Lemma find_last_none {A} (f : A -> bool) : forall l, find_last f l = None -> forall x, In x l -> f x = false.
+  Proof.
+    induction l as [|a l IH]; intros H x Hin; [destruct Hin|]. cbn in H. destruct (find_last f l) eqn:E; [discriminate|].
+    destruct (f a) eqn:Ea; [discriminate|]. destruct Hin as [<-|Hin]; [exact Ea|apply IH; auto].
+  Qed.
+
+  (* the accumulated list: no previous paths, and per record at most one digest per format *)
+  Definition fl_inv2 (acc : list record) : Prop :=
+    Forall (fun r => r_prev r = None /\ NoDup (map e_fmt (r_entries r))) acc.
+
+  Lemma add_entries_new_inv2 rs p s e : fl_inv2 rs -> (forall r, In r rs -> r_path r <> p) -> fl_inv2 (add_entries rs p false s [e]).
+  Proof.
+    intros Hi Hn. induction rs as [|r rs IH]; cbn [add_entries].
+    - constructor; [|constructor]. cbn. split; [reflexivity|repeat constructor; tauto].
+    - inversion Hi; subst. destruct (path_eqb_spec (r_path r) p) as [E|E]; [exfalso; apply (Hn r); [left; reflexivity|exact E]|].
+      constructor; [assumption|]. apply IH; [assumption|]. intros r' Hr'. apply Hn. right. exact Hr'.
+  Qed.
+  Lemma add_entries_merge_inv2 rs p s e :
+    fl_inv2 rs -> (forall r, In r rs -> r_path r = p -> ~ In (e_fmt e) (map e_fmt (r_entries r))) -> fl_inv2 (add_entries rs p false s [e]).
+  Proof.
+    intros Hi Hn. induction rs as [|r rs IH]; cbn [add_entries].
+    - constructor; [|constructor]. cbn. split; [reflexivity|repeat constructor; tauto].
+    - inversion Hi as [|? ? [Hp Hnd] Hi']; subst. destruct (path_eqb_spec (r_path r) p) as [E|E].
+      + constructor; [|exact Hi']. cbn [r_prev r_entries]. split; [exact Hp|]. rewrite map_app. cbn [map].
+        apply NoDup_app_intro; [exact Hnd|repeat constructor; tauto|]. intros x Hx [<-|[]]. exact (Hn r (or_introl eq_refl) E Hx).
+      + constructor; [split; assumption|]. apply IH; [exact Hi'|]. intros r' Hr'. apply Hn. right. exact Hr'.
+  Qed.
+
+  Lemma flatten_entry_inv2 acc r e : fl_inv acc -> fl_inv2 acc -> fl_inv2 (flatten_entry acc r e).
+  Proof.
+    intros [Hnd _] Hi. unfold flatten_entry. destruct (e_action e) as [[]|]; try exact Hi.
+    all: destruct (find_last (fun x => rec_keys_match x (r_path r)) acc) as [found|] eqn:Ef.
+    all: try (destruct (existsb (fun x => fmt_eqb (e_fmt x) (e_fmt e)) (r_entries found)) eqn:Ex; [exact Hi|]).
+    all: try (apply find_last_some in Ef; destruct Ef as [Hin Hk]; apply add_entries_merge_inv2; [exact Hi|];
+              intros r' Hr' Hp Hfmt;
+              assert (r' = found) by (apply (NoDup_key_inj r_path acc); auto);
+              subst r'; apply in_map_iff in Hfmt; destruct Hfmt as [x [Hx1 Hx2]];
+              assert (existsb (fun x0 => fmt_eqb (e_fmt x0) (e_fmt e)) (r_entries found) = true) by (apply existsb_exists; exists x; split; [exact Hx2|rewrite Hx1; apply fmt_eqb_refl]);
+              congruence).
+    all: apply add_entries_new_inv2; [exact Hi|]; intros r' Hr' Hp;
+         pose proof (find_last_none _ _ Ef r' Hr') as Hk; unfold rec_keys_match in Hk; rewrite Hp, path_eqb_refl in Hk; discriminate.
+  Qed.
+
+  Theorem flatten_records_inv2 gens : fl_inv2 (flatten_records gens).
+  Proof.
+    unfold flatten_records.
+    set (P := fun acc => fl_inv acc /\ fl_inv2 acc).
+    assert (HP : P (fold_left (fun acc g => fold_left (fun acc2 r => if r_dir r then acc2 else fold_left (fun a e => flatten_entry a r e) (r_entries r) acc2) (g_records g) acc) gens [])).
+    { apply (fold_left_inv _ P gens).
+      - intros acc g _ H. apply (fold_left_inv _ P (g_records g)); [|exact H].
+        intros acc2 r _ H2. destruct (r_dir r); [exact H2|].
+        apply (fold_left_inv _ P (r_entries r)); [|exact H2]. intros a e _ [Ha1 Ha2]. split; [apply flatten_entry_inv; exact Ha1|apply flatten_entry_inv2; assumption].
+      - split; [repeat split; constructor|constructor]. }
+    exact (proj2 HP).
+  Qed.
+End Flatten2.
+
+(* ---- flatten: for every path and format, the digest kept is the EARLIEST one that did not fail ---- *)
+Section Flatten3.
+  (* the order in which flatten_history scans the history: generations, file records, entries *)
+  Definition scan (gens : list gen) : list (record * entry) :=
+    flat_map (fun g => flat_map (fun r => if r_dir r then [] else map (fun e => (r, e)) (r_entries r)) (g_records g)) gens.
+  Lemma fold_left_flat_map {A B D} (f : A -> D -> A) (g : B -> list D) : forall l a,
+    fold_left f (flat_map g l) a = fold_left (fun a b => fold_left f (g b) a) l a.
+  Proof. induction l as [|b l IH]; intros a; cbn [flat_map fold_left]; [reflexivity|]. rewrite fold_left_app. apply IH. Qed.
+  Lemma fold_left_ext {A B} (f g : A -> B -> A) : (forall a b, f a b = g a b) -> forall l a, fold_left f l a = fold_left g l a.
+  Proof. intros H. induction l as [|b l IH]; intros a; cbn; [reflexivity|]. rewrite H. apply IH. Qed.
+  Lemma fold_left_map {A B D} (f : A -> D -> A) (g : B -> D) : forall l a, fold_left f (map g l) a = fold_left (fun a b => f a (g b)) l a.
+  Proof. induction l as [|b l IH]; intros a; cbn; [reflexivity|apply IH]. Qed.
+  Definition fstep (a : list record) (x : record * entry) : list record := flatten_entry a (fst x) (snd x).
+  Lemma flatten_records_scan gens : flatten_records gens = fold_left fstep (scan gens) [].
+  Proof.
+    unfold flatten_records, scan. rewrite fold_left_flat_map. apply fold_left_ext. intros a g.
+    rewrite fold_left_flat_map. apply fold_left_ext. intros a2 r. destruct (r_dir r); [reflexivity|].
+    rewrite fold_left_map. reflexivity.
+  Qed.
+
+  Definition ok_for (p : path) (f : fmt) (x : record * entry) : bool :=
+    path_eqb (r_path (fst x)) p && fmt_eqb (e_fmt (snd x)) f &&
+    match e_action (snd x) with Some Failed => false | _ => true end.
+  (* the specification: the earliest entry for path p and format f, in scan order, that did not fail *)
+  Definition earliest (done : list (record * entry)) (p : path) (f : fmt) : option entry := option_map snd (find (ok_for p f) done).
+  (* what the accumulated list holds for path p and format f *)
+  Definition held (acc : list record) (p : path) (f : fmt) : option entry :=
+    match find (fun r => path_eqb (r_path r) p) acc with
+    | Some r => find (fun e => fmt_eqb (e_fmt e) f) (r_entries r)
+    | None => None
+    end.
+
+  Lemma find_app_none {A} (g : A -> bool) l x : find g l = None -> find g (l ++ [x]) = if g x then Some x else None.
+  Proof. induction l as [|a l IH]; cbn; [reflexivity|]. destruct (g a); [discriminate|exact IH]. Qed.
+  Lemma find_app_some {A} (g : A -> bool) l l' y : find g l = Some y -> find g (l ++ l') = Some y.
+  Proof. induction l as [|a l IH]; cbn; [discriminate|]. destruct (g a); [auto|exact IH]. Qed.
+  Lemma earliest_snoc done x p f :
+    earliest (done ++ [x]) p f = match earliest done p f with Some e => Some e | None => if ok_for p f x then Some (snd x) else None end.
+  Proof.
+    unfold earliest. destruct (find (ok_for p f) done) as [y|] eqn:E.
+    - rewrite (find_app_some _ _ _ _ E). reflexivity.
+    - rewrite (find_app_none _ _ _ E). destruct (ok_for p f x); reflexivity.
+  Qed.
+
+  (* held after add_entries *)
+  Lemma held_add_same rs q s e : NoDup (map r_path rs) ->
+    forall f, held (add_entries rs q false s [e]) q f =
+              match held rs q f with Some x => Some x | None => if fmt_eqb (e_fmt e) f then Some e else None end.
+  Proof.
+    intros Hn f. unfold held. induction rs as [|r rs IH]; cbn [add_entries find].
+    - rewrite path_eqb_refl. cbn [r_entries find]. destruct (fmt_eqb (e_fmt e) f); reflexivity.
+    - destruct (path_eqb_spec (r_path r) q) as [E|E].
+      + cbn [find r_path]. rewrite E, path_eqb_refl. cbn [r_entries].
+        destruct (find (fun e0 => fmt_eqb (e_fmt e0) f) (r_entries r)) as [y|] eqn:Ef.
+        * rewrite (find_app_some _ _ _ _ Ef). reflexivity.
+        * rewrite (find_app_none _ _ _ Ef). reflexivity.
+      + cbn [find]. destruct (path_eqb_spec (r_path r) q); [contradiction|]. apply IH. cbn in Hn. inversion Hn; assumption.
+  Qed.
+  Lemma held_add_other rs q s e p : p <> q -> forall f, held (add_entries rs q false s [e]) p f = held rs p f.
+  Proof.
+    intros Hpq f. unfold held. induction rs as [|r rs IH]; cbn [add_entries find].
+    - cbn [r_path]. destruct (path_eqb_spec q p); [congruence|reflexivity].
+    - destruct (path_eqb_spec (r_path r) q) as [E|E].
+      + cbn [find r_path]. destruct (path_eqb_spec (r_path r) p) as [E'|E']; [congruence|reflexivity].
+      + cbn [find]. destruct (path_eqb_spec (r_path r) p); [reflexivity|exact IH].
+  Qed.
+
+  (* with no previous paths, the look-up by key is the look-up by path *)
+  Lemma keys_is_path acc p : fl_inv acc -> fl_inv2 acc ->
+    match find_last (fun x => rec_keys_match x p) acc with
+    | Some found => r_path found = p /\ find (fun r => path_eqb (r_path r) p) acc = Some found
+    | None => find (fun r => path_eqb (r_path r) p) acc = None
+    end.
+  Proof.
+    intros [Hn _] Hi. destruct (find_last (fun x => rec_keys_match x p) acc) as [found|] eqn:Ef.
+    - apply find_last_some in Ef. destruct Ef as [Hin Hk]. unfold fl_inv2 in Hi. rewrite Forall_forall in Hi. destruct (Hi found Hin) as [Hp _].
+      unfold rec_keys_match in Hk. rewrite Hp in Hk. cbn [opt_path_eqb] in Hk. rewrite orb_false_r in Hk. apply path_eqb_eq in Hk.
+      split; [exact Hk|]. destruct (find (fun r => path_eqb (r_path r) p) acc) as [r|] eqn:Efi.
+      + apply find_some in Efi. destruct Efi as [Hr Hrp]. apply path_eqb_eq in Hrp. f_equal. apply (NoDup_key_inj r_path acc); auto. congruence.
+      + exfalso. eapply find_none in Efi; [|exact Hin]. rewrite Hk, path_eqb_refl in Efi. discriminate.
+    - destruct (find (fun r => path_eqb (r_path r) p) acc) as [r|] eqn:Efi; [|reflexivity]. apply find_some in Efi. destruct Efi as [Hr Hrp].
+      pose proof (find_last_none _ _ Ef r Hr) as Hk. unfold rec_keys_match in Hk. rewrite Hrp in Hk. discriminate.
+  Qed.
+
+  (* one scan step keeps "what is held = the earliest non-failed entry seen so far" *)
+  Lemma fstep_keeps done acc x : fl_inv acc -> fl_inv2 acc ->
+    (forall p f, held acc p f = earliest done p f) ->
+    forall p f, held (fstep acc x) p f = earliest (done ++ [x]) p f.
+  Proof.
+    intros H1 H2 Hh p f. rewrite earliest_snoc, <- Hh. destruct x as [r e]. unfold fstep, flatten_entry, ok_for. cbn [fst snd].
+    assert (Hfailed : e_action e = Some Failed -> held acc p f = match held acc p f with Some e0 => Some e0 | None => if path_eqb (r_path r) p && fmt_eqb (e_fmt e) f && false then Some e else None end).
+    { intros _. rewrite andb_false_r. destruct (held acc p f); reflexivity. }
+    destruct (e_action e) as [[]|] eqn:Ea; try (apply Hfailed; reflexivity); clear Hfailed; rewrite andb_true_r.
+    all: pose proof (keys_is_path acc (r_path r) H1 H2) as Hk; destruct (find_last (fun x => rec_keys_match x (r_path r)) acc) as [found|] eqn:Ef.
+    all: try (destruct Hk as [Hfp Hfind];
+              destruct (existsb (fun x => fmt_eqb (e_fmt x) (e_fmt e)) (r_entries found)) eqn:Ex;
+              [ (* format already there: nothing changes, and what is held for (path, format) is already Some *)
+                destruct (path_eqb_spec (r_path r) p) as [Ep|Ep]; cbn [andb]; [|destruct (held acc p f); reflexivity];
+                destruct (fmt_eqb_spec (e_fmt e) f) as [Efm|Efm]; [|destruct (held acc p f); reflexivity];
+                unfold held; rewrite <- Ep, Hfind; apply existsb_exists in Ex; destruct Ex as [y [Hy Hyf]];
+                destruct (find (fun e0 => fmt_eqb (e_fmt e0) f) (r_entries found)) eqn:Efo; [reflexivity|];
+                exfalso; eapply find_none in Efo; [|exact Hy]; rewrite <- Efm in Efo; congruence
+              | rewrite Hfp; destruct (path_eqb_spec (r_path r) p) as [Ep|Ep]; cbn [andb];
+                [ rewrite <- Ep; rewrite held_add_same by (destruct H1; assumption); reflexivity
+                | rewrite held_add_other by congruence; destruct (held acc p f); reflexivity ] ]).
+    all: destruct (path_eqb_spec (r_path r) p) as [Ep|Ep]; cbn [andb];
+         [ rewrite <- Ep; rewrite held_add_same by (destruct H1; assumption); reflexivity
+         | rewrite held_add_other by congruence; destruct (held acc p f); reflexivity ].
+  Qed.
+
+  Lemma fstep_inv acc x : fl_inv acc /\ fl_inv2 acc -> fl_inv (fstep acc x) /\ fl_inv2 (fstep acc x).
+  Proof. intros [H1 H2]. split; [apply flatten_entry_inv; exact H1|apply flatten_entry_inv2; assumption]. Qed.
+
+  (* C18: for every file path and every format, the flattened manifest holds exactly the EARLIEST digest of that
+     format that did not fail (in generation order), and none if there is none -- for every history without renames *)
+  Theorem flatten_keeps_earliest gens p f : held (flatten_records gens) p f = earliest (scan gens) p f.
+  Proof.
+    rewrite flatten_records_scan.
+    assert (H : forall todo done acc, fl_inv acc /\ fl_inv2 acc -> (forall p f, held acc p f = earliest done p f) ->
+                  forall p f, held (fold_left fstep todo acc) p f = earliest (done ++ todo) p f).
+    { induction todo as [|x todo IH]; intros done acc Hi Hh p0 f0; cbn [fold_left]; [rewrite app_nil_r; apply Hh|].
+      replace (done ++ x :: todo) with ((done ++ [x]) ++ todo) by (rewrite <- app_assoc; reflexivity).
+      apply IH; [apply fstep_inv; exact Hi|]. destruct Hi. apply fstep_keeps; assumption. }
+    apply (H (scan gens) [] []); [split; [repeat split; constructor|constructor]|reflexivity].
+  Qed.
+End Flatten3.
